@@ -4,6 +4,8 @@ import json, os
 ROOT = os.path.dirname(os.path.abspath(__file__))
 S = 'Engine S: symbolic execution of the clang-14 LLVM IR of the real translation unit (harness #includes the .cpp), z3 decides every assertion and every memory/UB obligation on every path'
 CLAIMED = {
+ 'C03': ('Bounded symbolic check of manifest-derived lifetimes: manifest_ttl for every expiry / wall-clock reading / sanitised window never exceeds the manifest\'s remaining life, lies in [min, max] and rejects exactly the expired or too-short manifests; Node::ingest_manifest (lifted onto a partial Node with the real KademliaTable) changes state only on acceptance and the cached key shares then expire no later than the manifest.',
+         'ONLY the key-share and rejection clauses: provider contacts (handle_announce), replica copies (receive_chunk) and pending fetches are not encoded; decode_manifest supplied by the harness; ingest job over small time ranges'),
  'C20': ('Bounded symbolic check of Node::perform_handshake (lifted from the current core/Node.cpp onto a partial Node with the real KeyManager, KeyExchange, ReputationManager): over every history of 2 (quick) / 3 (thorough) inbound handshakes of one claimed peer with symbolic keys, nonces and clock gaps, acceptance implies a valid key, rejection registers nothing, keeps existing keys and lowers the reputation; with symbolic difficulty, acceptance happens exactly when the key is valid and the PoW predicate holds.',
          'handle_transport_handshake (negotiation, ack encoding) not encoded; histories run with difficulty 0; DH secret and SHA/HMAC uninterpreted; SessionManager::register_peer_key is a recording stub'),
  'C21': ('Bounded symbolic check of the announce throttle and lock-out kernels (lifted from the current core/Node.cpp onto a partial Node): over every timed sequence of 4 (quick) / 6 (thorough) announces of two interleaved peers an announce is admitted exactly when it respects the minimum interval and the burst limit of the window; three rejections within 120 s lock the peer out for exactly 180 s.',
